@@ -24,7 +24,7 @@ func init() {
 		Rule: "one run = N searches pipelined on one connection (N in {2,8,64}; up to 512 in thorough); each handler first joins a barrier that opens only when all N handlers have entered " +
 			"(simultaneity is proven, not assumed), then writes K entries with unique ids (h=<message id>,j=<seq>) whose payload is a function of (h,j,len), len cycling through {3,100,5000,70000} " +
 			"(below/above the 4096-byte write buffer), then SearchDone; every Write result is logged. Runs cover plain / TLS-listener / StartTLS-upgraded transports x eager / back-pressure reading x GOMAXPROCS {1,2,4,16}, " +
-			"under the race detector; plus thousands of small bursts (2..4 writers, then silence) on one long-lived connection, where every frame of a burst must arrive before the client sends anything else; and runs in which the server is stopped while handlers are writing and the client keeps pipelining (gldap's own shutdown notice shares the stream); runs against a server with a write timeout in which a frame larger than every socket buffer is written to a client that reads again only after a Write has failed, followed by a further request; victim connections that reset in the middle of a response before and between the writer rounds; connections that stay in use after one to three Writes panicked while encoding (recovered); single frames whose encoded size sweeps the neighbourhood of the write buffer size, each followed by silence; and pipelines that end with an Unbind so that the server closes while the slow client still has most frames to read. Oracle: strict incremental parse; multiset of ids == set of successful writes; per-writer order; payload check. " +
+			"under the race detector; plus thousands of small bursts (2..4 writers, then silence) on one long-lived connection, where every frame of a burst must arrive before the client sends anything else; and runs in which the server is stopped while handlers are writing and the client keeps pipelining (gldap's own shutdown notice shares the stream); runs against a server with a write timeout in which a frame larger than every socket buffer is written to a client that reads again only after a Write has failed, followed by a further request; victim connections that reset in the middle of a response before and between the writer rounds; connections that stay in use after one to three Writes panicked while encoding (recovered); single frames whose encoded size sweeps the neighbourhood of the write buffer size, each followed by silence; pipelines that end with an Unbind so that the server closes while the slow client still has most frames to read; and pipelines with a StartTLS request behind the searches, which the server answers from the read loop while the handlers write. Oracle: strict incremental parse; multiset of ids == set of successful writes; per-writer order; payload check. " +
 			"distinct_nontrivial = distinct cross-writer interleaving signatures (order of writer ids in the received stream) with at least one cross-writer switch",
 		Assume: []string{"the client-side parser (internal/sber) is strict and independent of asn1-ber"},
 		Phases: func(tier string, seed int64) []Phase {
@@ -38,7 +38,7 @@ func init() {
 			}
 			return ps
 		},
-		MinObserved: []string{"frames_checked", "cross_writer_switches", "barrier_openings", "bursts_fully_answered_without_further_traffic", "stops_during_concurrent_writes", "write_timeout_runs", "victim_connections_reset_mid_response", "connections_used_after_a_panic_inside_write", "single_frames_around_the_write_buffer_size", "runs_in_which_the_server_closes_before_the_client_has_read_everything"},
+		MinObserved: []string{"frames_checked", "cross_writer_switches", "barrier_openings", "bursts_fully_answered_without_further_traffic", "stops_during_concurrent_writes", "write_timeout_runs", "victim_connections_reset_mid_response", "connections_used_after_a_panic_inside_write", "single_frames_around_the_write_buffer_size", "runs_in_which_the_server_closes_before_the_client_has_read_everything", "runs_with_a_starttls_request_answered_among_the_writers"},
 	})
 }
 
@@ -62,6 +62,9 @@ type c05Cfg struct {
 	// Unbind: an Unbind rides behind the pipeline, so that it is the SERVER that closes the connection - as soon as the
 	// handlers are done, possibly long before the (slow) client has read what they wrote
 	Unbind bool
+	// ExtraStartTLS: a StartTLS extended request (which the server answers from its read loop, not from a handler
+	// goroutine) rides behind the searches, so that its response shares the stream with the writers' frames
+	ExtraStartTLS bool
 }
 
 // slowReader sips from the connection in small chunks with pauses for the
@@ -215,6 +218,13 @@ func c05One(c *Ctx, pki *PKI, cfg c05Cfg, r *Rand) {
 		ids[id] = true
 		all = append(all, sber.Message(id, sber.Search{Base: []byte("dc=x"), Scope: 2, Filter: sber.PresentFilter("objectClass"), Attrs: [][]byte{}}.Node(), nil).Encode()...)
 	}
+	extID := int64(-1)
+	if cfg.ExtraStartTLS {
+		extID = base + int64(cfg.N) + 7
+		ids[extID] = true
+		all = append(all, sber.Message(extID, sber.ExtendedRequest([]byte(sber.OIDStartTLS), nil, false), nil).Encode()...)
+		c.Count("runs_with_a_starttls_request_answered_among_the_writers", 1)
+	}
 	if cfg.Unbind {
 		all = append(all, sber.Message(base+int64(cfg.N)+5, sber.UnbindRequest(), nil).Encode()...)
 		c.Count("runs_in_which_the_server_closes_before_the_client_has_read_everything", 1)
@@ -229,6 +239,9 @@ func c05One(c *Ctx, pki *PKI, cfg c05Cfg, r *Rand) {
 	}
 	br := bufio.NewReaderSize(rd, 32<<10)
 	want := cfg.N * (cfg.K + 1)
+	if cfg.ExtraStartTLS {
+		want++ // the answer to the StartTLS request (a refusal: no such route on this server)
+	}
 	seen := map[wkey]int{}
 	lastJ := map[int64]int{}
 	done := map[int64]bool{}
@@ -267,6 +280,12 @@ func c05One(c *Ctx, pki *PKI, cfg c05Cfg, r *Rand) {
 		h := m.ID
 		if !ids[h] {
 			c.Violate("frame with a message ID no request had", fmt.Sprint(h), det)
+			continue
+		}
+		if h == extID {
+			if m.Op.Tag != sber.AppExtendedResponse {
+				c.Violate("byte stream is not a concatenation of whole LDAPMessages", fmt.Sprintf("the answer to the StartTLS request has protocolOp tag %d", m.Op.Tag), det)
+			}
 			continue
 		}
 		if len(order) > 0 && order[len(order)-1] != h {
@@ -337,7 +356,7 @@ func c05One(c *Ctx, pki *PKI, cfg c05Cfg, r *Rand) {
 		}
 		c.Distinct("interleavings", fmt.Sprintf("%d/%d/%s", cfg.N, cfg.K, sb.String()))
 	}
-	c.Distinct("variants", fmt.Sprintf("%s/slow=%v/N=%d/unbind=%v", cfg.Transport, cfg.Slow, cfg.N, cfg.Unbind))
+	c.Distinct("variants", fmt.Sprintf("%s/slow=%v/N=%d/unbind=%v/ext=%v", cfg.Transport, cfg.Slow, cfg.N, cfg.Unbind, cfg.ExtraStartTLS))
 	if cfg.N == 8 && !cfg.Slow {
 		var head []int64
 		for _, h := range order[:min(len(order), 24)] {
@@ -931,6 +950,9 @@ func c05Run(c *Ctx) {
 					c05One(c, pki, c05Cfg{N: n, K: kk, Transport: tr, Slow: slow}, r.Sub(fmt.Sprintf("%d/%s/%v/%d", rep, tr, slow, n)))
 					if slow && n <= 64 {
 						c05One(c, pki, c05Cfg{N: n, K: kk, Transport: tr, Slow: true, Unbind: true}, r.Sub(fmt.Sprintf("%d/%s/unbind/%d", rep, tr, n)))
+					}
+					if tr != "starttls" && n <= 64 {
+						c05One(c, pki, c05Cfg{N: n, K: kk, Transport: tr, Slow: slow, ExtraStartTLS: true}, r.Sub(fmt.Sprintf("%d/%s/%v/ext/%d", rep, tr, slow, n)))
 					}
 				}
 			}
